@@ -140,19 +140,20 @@ Definition pos_of (m : list (string * nat)) (c : string) : nat :=
   match find (fun p => String.eqb (fst p) c) m with Some p => snd p | None => 0 end.
 
 Definition ambig1 (f : frame) (m : list (string * nat)) (c : col) : col * list (string * nat) :=
-  match q c, cap c, f_joins f with
-  | QNone, None, _ :: _ =>
-      let cw := ctes_with f (cn c) in
-      let p := pos_of m (cn c) in           (* p = resolved_column_position + 1 *)
+  match q c, f_joins f with
+  | QNone, _ :: _ =>
+      let nm := col_out c in                (* a captured identifier is looked up under the CTE's name, written "^" *)
+      let cw := ctes_with f nm in
+      let p := pos_of m nm in               (* p = resolved_column_position + 1 *)
       match nth_error cw p with
-      | Some k => (mkCol (QCte (c_name k)) (cn c) (cap c) (cju c), (cn c, S p) :: m)
+      | Some k => (mkCol (QCte (c_name k)) (cn c) (cap c) (cju c), (nm, S p) :: m)
       | None =>
           match (match p with 0 => last (map Some cw) None | S p' => nth_error cw p' end) with
           | Some k => (mkCol (QCte (c_name k)) (cn c) (cap c) (cju c), m)
           | None => (c, m)
           end
       end
-  | _, _, _ => (c, m)
+  | _, _ => (c, m)
   end.
 
 Fixpoint ambig (f : frame) (m : list (string * nat)) (cs : list col) : list col :=
@@ -189,10 +190,14 @@ Record acc := mkAcc {
   a_nctr : nat         (* how often `_auto_incrementing_name` was drawn: a duplicated CTE gets a new alias for its inline VALUES *)
 }.
 
+(** the number of the inline VALUES alias of a CTE body; the literal of an earlier disambiguating filter is not one *)
+Definition is_marker (t : tx) : bool := match t with TA (AS s) => String.eqb s "WHERE-DEDUP" | _ => false end.
+
 Fixpoint first_ctr (t : tx) : option nat :=
   match t with
   | TA (ACt n) => Some n
-  | TCat l r => match first_ctr l with Some n => Some n | None => first_ctr r end
+  | TCat l r => if is_marker l then None
+                else match first_ctr l with Some n => Some n | None => first_ctr r end
   | _ => None
   end.
 
